@@ -1,6 +1,6 @@
 (* C05 -- audited obligations.  Models: coq/Grid/{QVec,IntLin,GridSem,GridRef}.v *)
 From Coq Require Import List ZArith QArith Qabs Bool.
-Require Import PPLV.Grid.QVec PPLV.Grid.IntLin PPLV.Grid.GridSem PPLV.Grid.GridRef PPLV.Grid.GridFreq.
+Require Import PPLV.Grid.QVec PPLV.Grid.IntLin PPLV.Grid.GridSem PPLV.Grid.GridRef PPLV.Grid.GridFreq PPLV.Grid.GridOps2 PPLV.Grid.GridOpsSpec.
 Import ListNotations.
 Local Open Scope Q_scope.
 
@@ -87,6 +87,24 @@ Proof. exact frequency_defined. Qed.
 Theorem frequency_undefined_spec : forall n G a b, frequency n G a b = Ans NoFreq ->
   (forall x, ~ in_qgens n G x) \/ (forall q : Q, exists x, in_qgens n G x /\ expr_val a b x == q).
 Proof. exact frequency_undefined. Qed.
+
+(* reference operators of the dimension-changing / cylindrification / time-elapse family against their set-level
+   definitions (coq/Grid/GridOpsSpec.v) *)
+Theorem unconstrain_exact : forall n k G x, (k < n)%nat ->
+  (in_qgens n (unconstrain k G) x <-> exists v, in_qgens n G (upd x k v)).
+Proof. exact unconstrain_spec. Qed.
+Theorem remove_higher_space_dimensions_exact : forall n m G x, (m <= n)%nat ->
+  (in_qgens m (remove_higher m G) x <-> exists y, in_qgens n G y /\ peq m x y).
+Proof. exact remove_higher_spec. Qed.
+Theorem add_space_dimensions_and_embed_exact : forall n m G x,
+  in_qgens (n + m) (add_dims_embed n m G) x <-> in_qgens n G x.
+Proof. exact add_dims_embed_spec. Qed.
+(* time-elapse: the points of G1 translated by the integer combinations of points of G2; empty when either is *)
+Theorem time_elapse_exact : forall n G1 G2 x,
+  in_qgens n (time_elapse G1 G2) x <->
+  (exists q, in_qgens n G2 q) /\
+  (exists p z, in_qgens n G1 p /\ zcomb n (in_qgens n G2) z /\ peq n x (fun i => p i + z i)).
+Proof. exact time_elapse_spec. Qed.
 
 (* ---------- stated, NOT proved (kept as Props; nothing depends on them) ---------- *)
 (* grid_incl_sound / grid_equiv_sound / grid_dd_check_sound are the proved halves of these: *)
